@@ -367,6 +367,16 @@ func cmdCheck(args []string) int {
 			inconclusive = append(inconclusive, h.Name+": "+s)
 			he.Verdict = "inconclusive"
 		}
+		if h.Opts["expect"] == "violation" {
+			// self-test: the engine must find this counterexample
+			if len(res.Violations) == 0 {
+				inconclusive = append(inconclusive, h.Name+": expected violation was not found")
+				he.Verdict = "inconclusive"
+			} else {
+				he.Verdict = "violation found as expected"
+			}
+			res.Violations = nil
+		}
 		for _, v := range res.Violations {
 			if kid := v.KnownID; kid != "" && known[kid] {
 				knownViol = append(knownViol, v)
